@@ -11,13 +11,72 @@ NOTE_COMMON = ("Trusted base: Lean 4.33 kernel (+leanchecker in thorough), Mathl
                "and Lean Float (= C doubles) as execution vehicle. ")
 
 # pid -> (technique, level text, level_note, design_ref)
+KERN = ("hand-written Lean model of the kernels, generic over the arithmetic, tied to the numba kernels by bit-for-bit correspondence every run; "
+        "theorems about that model (refinement of the H recursion to a size- and history-free recursion; exact-arithmetic identities); "
+        "oracle gap monitor for the clauses no theorem covers")
+PARTIAL = " PARTIAL: rounding-error bounds and the identification of the recursion's exact limit with the documented special functions are not theorems (no IEEE error analysis / Wigner-D theory available in Lean/Mathlib); they are covered by the bitwise-validated model plus an mpmath/Racah oracle sweep, which is evidence, not proof. "
+
 TABLE = {
+    "C01": ("Lean refinement proof of the H recursion + bitwise correspondence + mpmath oracle",
+            "Proved for every arithmetic (hence IEEE doubles) and all sizes: the five-step recursion stores at each wedge coordinate a value that depends on the coordinate and beta only (HKernel.runH_refines/pure/size_indep); d/D assembly formula; eps = generated eps. The model is the code: tables, H (from poisoned workspaces), Euler phases, complex powers, fill_d, fill_D agree bit for bit on every generated case." + PARTIAL,
+            NOTE_COMMON + "quaternionic.ToEulerPhases modelled from its source; np.sqrt(complex) a parameter. Known finding F10 (subnormal near-pole band) is reported as KNOWN-FINDING.", "DESIGN.md §7 C01"),
+    "C02": ("Lean theorems (exact zeros for every arithmetic, sYlm = D column in exact arithmetic, narrow-wedge safety) + bitwise correspondence + oracle to ell=1024",
+            "Proved: entries below |s| are literal zeros for every scalar type; every H lookup of spin s lies in |m'|<=|s| (so an mp_max-limited calculator is safe for every ell_max); in exact arithmetic sYlm = (-1)^s sqrt((2l+1)/4pi) D^l_{m,-s} of the same model (Routes.sYlm_eq_D_column); H refinement as C01. fill_sYlm agrees bitwise incl. |s|>=3, limited calculators, ell_min>0." + PARTIAL,
+            NOTE_COMMON + "z**|s| (numpy complex power) is a parameter of the model. Known finding F10 as in C01.", "DESIGN.md §7 C02"),
+    "C03": ("Lean proof that the Horner route equals the plain double sum f_lm*sYlm (exact arithmetic, all sizes/spins) + bitwise correspondence of _evaluate_Horner + sweep of every route",
+            "Proved for all ell_max, all spins (both index-walk loops, any number of iterations): evaluateHorner = sum_{l,m} f_lm * sYlmEntry over exact reals (Routes.evaluate_eq_sum_sYlm), output cell initialised by the kernel (evaluateHornerK). _evaluate_Horner agrees bit for bit with the model. Matrix route, larger calculators, Modes.evaluate, Modes.grid (spinsfast on/off), shapes and input immutability are checked by the sweep." + PARTIAL,
+            NOTE_COMMON + "BLAS matmul and spinsfast are external (numerical comparison only); conj(z)**s is a parameter.", "DESIGN.md §7 C03"),
+    "C04": ("Lean proof that the Horner rotation equals sum_m' f_lm' D_m'm (exact arithmetic) + bitwise correspondence of _rotate_Horner + sweep",
+            "Proved: rotateHornerEntry = sum_n f_ln * DEntry(l,n,m) over exact reals for all l (Routes.rotateHorner_eq_matrix). _rotate_Horner agrees bit for bit with the model. f'(Q)=f(RQ), composition, inverse, block norms, metadata, strategies, Modes.rotate are checked by the sweep." + PARTIAL,
+            NOTE_COMMON + "the representation property of D is not proved; matrix route uses BLAS.", "DESIGN.md §7 C04"),
+    "C05": ("generated integer coefficients (translator) + Lean model of calculate bitwise-validated + Racah oracle",
+            "The integer coefficient B and the radicand of A are re-translated from the source every run together with the declared return width; the model of Wigner3jCalculator.calculate / Wigner3j / clebsch_gordan (which calls the generated B) reproduces the jitted code bit for bit on exhaustive small J and branch-targeted samples to j=400; theorems in Props/C05." + PARTIAL,
+            NOTE_COMMON + "identification with the Racah formula and the 1e-9/1e-12 bounds are oracle-checked only.", "DESIGN.md §7 C05"),
+    "C06": ("Lean theorems on product metadata/truncation rules + sweep vs evaluation on rotors",
+            "Sweep: every spelling of the product, truncators (bitwise = full product cut), scalar mult/div, broadcasting, against evaluation at rotors; obligations of Props/C06." + PARTIAL,
+            NOTE_COMMON + "the Clebsch-Gordan series is not proved.", "DESIGN.md §7 C06"),
+    "C07": ("Lean proof of the conjugation symmetry of the D assembly (exact arithmetic, all l) + full-block sweep of the group laws",
+            "Proved: D_{-m',-m} = (-1)^{m'+m} conj D_{m',m} for the model's assembly from the quarter wedge (Routes.D_conj_symm), H fold symmetric (C11.hindex_symm). Homomorphism, unitarity, D(-R), D(1) on every entry of every block to ell=128 are swept." + PARTIAL,
+            NOTE_COMMON + "homomorphism/unitarity need the identification with the documented polynomial.", "DESIGN.md §7 C07"),
+    "C08": ("Lean theorem runH_size_indep (value at a coordinate independent of ell_max, mp_max, workspace; any arithmetic => bit for bit) + cross-configuration bitwise sweep",
+            "Proved for every arithmetic: two calculators of different (ell_max, mp_max) and different workspaces hold the same value at every common wedge coordinate; index functions place it (C11). Assembly kernels are pure maps of H. Sweep compares differently sized calculators, wrappers, oversized workspaces and 3-j capacities bit for bit.",
+            NOTE_COMMON + "ell_min offsets are the generated index functions (C11).", "DESIGN.md §7 C09/C08/C17"),
+    "C09": ("Lean theorem runH_pure (result independent of initial workspace content, any arithmetic) + poisoned-workspace bitwise correspondence + history sweep vs fresh objects",
+            "Proved: the wedge after runH does not depend on what the workspace held before (every cell read was written earlier in the same call), for every arithmetic; 3-j workspace zeroed first. Kernels run from NaN/1e300-poisoned workspaces agree with the model bit for bit. All length-2 (thorough: sampled length-3) call sequences over ~45 operations on a full and a limited calculator equal a fresh object's result.",
+            NOTE_COMMON + "BLAS routes to rounding only (as the property allows).", "DESIGN.md §7 C09"),
+    "C10": ("Lean interleaving theorem over footprints + kernel-granularity cooperative scheduler on real threads + footprint monitor",
+            "Theorem (Props/Sched when present): any interleaving of threads whose steps read only inside their private region and never write another's region leaves each region as the thread alone produces, and buffers nobody writes are unchanged. The monitor validates the footprints on the real code (no kernel of a private-workspace call is handed the default workspace; tables/default workspace byte-identical) and the scheduler drives real threads through systematic+sampled interleavings, bitwise vs sequential.",
+            NOTE_COMMON + "a compiled kernel is atomic under the GIL (assumed).", "DESIGN.md §7 C10"),
     "C11": ("Lean 4 theorems about index/size functions re-translated from the Python source on every run (translator + translation validation)",
-            "Machine-checked proof, for all integers, that the generated (re-translated every run) size functions count the documented nested-loop "
-            "orderings and the index functions return positions in them (incl. symmetric folding, methods = free functions, int64 exactness up to 10^6 and a "
-            "proved overflow witness beyond). Complete for the property; the translator is validated by differential execution on every run.",
-            NOTE_COMMON + "numba types Python ints as int64 (modelled by the generated *_w twins); brute-force sweeps only support the failing-input search.",
-            "DESIGN.md §7 C11"),
+            "Machine-checked proof, for all integers, that the generated (re-translated every run) size functions count the documented nested-loop orderings and the index functions return positions in them (incl. symmetric folding, methods = free functions, int64 exactness up to 10^6 and a proved overflow witness beyond). Complete for the property; the translator is validated by differential execution on every run.",
+            NOTE_COMMON + "numba types Python ints as int64 (modelled by the generated *_w twins); brute-force sweeps only support the failing-input search. Known finding F12 (int64 wrap beyond 1.6e6).", "DESIGN.md §7 C11"),
+    "C12": ("Lean theorems on ladder coefficients/commutators (exact arithmetic) + exponential-series sweep against rotated evaluation",
+            "Sweep: exponential series of L/R generators vs evaluation at exp(tg)Q / Q exp(tg), commutators, Casimir, [ethbar,eth]=2s, annihilation, coefficients, array-level operators for every (s, ell_min<=ell_max); obligations of Props/C12." + PARTIAL,
+            NOTE_COMMON + "generator semantics needs the representation property (not proved).", "DESIGN.md §7 C12"),
+    "C13": ("Lean proof of conjugation symmetry (Routes) + sweep of Modes algebra vs evaluation",
+            "Proved (exact arithmetic): the symmetry D_{-m',-m} = (-1)^{m'+m} conj D_{m',m} and sYlm = D column, which give conj(f)(Q) = conj(f(Q)) for the conjugation rule; sweep covers +,-, conjugation by every spelling, real/imag, norm, rejections, allow-list." + PARTIAL,
+            NOTE_COMMON + "norm = L2 norm relies on orthonormality (not proved).", "DESIGN.md §7 C13"),
+    "C14": ("Lean proof that complex_powers returns z^m exactly over the reals (all M, all quadrants) + bitwise correspondence + mpmath oracle",
+            "Proved over exact reals for every unit z, every M, every m<=M: entry m = z^m (C14.cpow_exact); the quadrant loop ends within 3 turns for every real z (fuel never exhausted); entry 0 is literally 1 for every arithmetic, entry 1 is z. _complex_powers agrees with the model bit for bit on all quadrants/axes/signed zeros." + PARTIAL,
+            NOTE_COMMON + "Im sqrt(z) (library complex sqrt) is a parameter; the (m+1)eps bound is oracle-checked.", "DESIGN.md §7 C14"),
+    "C15": ("guards re-extracted from wigner.py every run (translator) + Lean theorems on them + full lattice sweep with a docstring-derived reference predicate",
+            "The leading `if ...: raise` guards of Wigner.__init__/d/D/sYlm/rotate/evaluate/_split_workspace and Modes.index are extracted into Lean definitions on every run; theorems in Props/C15 relate them to the documented servable predicate; the extracted guards are validated against the real methods' outcome on the whole lattice; values vs a generously sized calculator; malformed constructor arguments.",
+            NOTE_COMMON + "reference predicate written from the docstrings.", "DESIGN.md §7 C15"),
+    "C16": ("Lean model of the Grid ufunc dispatcher + sweep of every allow-listed ufunc form vs numpy on raw arrays",
+            "Sweep over spins -3..3, shapes, every supported ufunc in ufunc/operator/method/out=/in-place form: class, spin rule, values = numpy, metadata dict fresh, rejections; obligations of Props/C16.",
+            NOTE_COMMON + "numpy ufunc dispatch protocol assumed.", "DESIGN.md §7 C16"),
+    "C17": ("Lean purity/size-independence theorems (per-rotor result is a function of that rotor) + sweep of vectorised/out=/workspace= forms, bitwise",
+            "Per-rotor independence follows from runH_pure (each loop iteration recomputes H from scratch); sweep over rotor ranks 0..3, leading mode axes, out= of the documented shape, workspace=: shapes, bitwise equality with single-rotor calls, identity of the returned array, inputs untouched, no aliasing.",
+            NOTE_COMMON + "numpy reshape of contiguous arrays is a view (assumed).", "DESIGN.md §7 C17"),
+    "C18": ("Lean model of copy/pickle hooks + sweep of 5 copy routes x pickle protocols 0..5 with mutation of both sides",
+            "Sweep over Modes and Grid, spins -3..3, shapes, strided views, extra metadata: class, data, metadata preserved; independence under mutation of either side; obligations of Props/C18.",
+            NOTE_COMMON + "numpy's __reduce__/__setstate__ machinery assumed.", "DESIGN.md §7 C18"),
+    "C19": ("Lean theorems on conversion round trips (exact arithmetic) + evaluation/rotation sweep",
+            "Sweep: constants and vectors (real/complex, arrays) evaluate to c and v.n at all directions incl. poles, round trips, rotation of weights by conj(R) = rotation of the vector; obligations of Props/C19." + PARTIAL,
+            NOTE_COMMON + "uses Wigner.evaluate/rotate (C03/C04).", "DESIGN.md §7 C19"),
+    "C20": ("generated Yindex/Ysize and Modes.index guards (translator) + Lean theorems + exhaustive construction sweep",
+            "Yindex/Ysize theorems (C11) give the storage position; Modes.index guards are re-extracted every run and validated against the method; sweep over all (s, ell_min, ell_max), leading shapes, dtypes, construction forms: stored weights, zero fill, index(), truncate_ell(), views.",
+            NOTE_COMMON + "float sqrt exact on perfect squares below 2^52 (assumed).", "DESIGN.md §7 C20"),
 }
 
 NOT_YET = {}
